@@ -283,6 +283,29 @@ func c16(ctx *Ctx) (*Outcome, error) {
 		j.pairs = append(j.pairs, optPair{kind: "extra-imports", a: ne, b: append(append([]string{}, ne...), "--extra-imports")})
 		jobs = append(jobs, j)
 	}
+	// enumerated: two distinct schema nodes of equal content that want the same Go type name (definition FooBar next
+	// to property bar of definition Foo; array levels next to property levelsElem) for every kind of named type -
+	// whether the second is merged with the first or declared as X_1 must not depend on --only-models
+	for k, body := range []string{`"type":"integer","enum":[1,2,3]`, `"type":"string","enum":["a","b"]`, `"type":"number","enum":[1.5,2]`, `"enum":["x",1,null]`,
+		`"type":"object","properties":{"q":{"type":"integer","minimum":1}},"required":["q"]`, `"type":"object","properties":{"q":{"type":"string","default":"d"}}`, `"type":"integer","minimum":3`} {
+		for v, text := range []string{
+			`{"$id":"https://example.com/opt","type":"object","properties":{"a":{"$ref":"#/$defs/FooBar"},"b":{"$ref":"#/$defs/Foo"}},"$defs":{"FooBar":{` + body + `},"Foo":{"type":"object","properties":{"bar":{` + body + `}}}}}`,
+			`{"$id":"https://example.com/opt","type":"object","properties":{"levels":{"type":"array","items":{` + body + `}},"levelsElem":{` + body + `}}}`,
+			`{"$id":"https://example.com/opt","type":"object","properties":{"x":{"type":"object","properties":{"y":{` + body + `}}},"xY":{` + body + `},"x_y":{` + body + `}}}`,
+		} {
+			root, err := sg.FromJSON([]byte(text))
+			if err != nil {
+				continue
+			}
+			j := &job{root: root}
+			for _, base := range [][]string{nil, {"--extra-imports"}, {"--min-sized-ints"}} {
+				j.pairs = append(j.pairs, optPair{kind: "only-models", a: base, b: append(append([]string{}, base...), "--only-models")})
+			}
+			_ = k
+			_ = v
+			jobs = append(jobs, j)
+		}
+	}
 	type pres struct {
 		problem string
 		skipped string
